@@ -83,8 +83,21 @@ def main(argv=None) -> int:
 
     known = core.load_known()
     violations, known_seen = [], {}
+    merged = {}
     for r in results:
         for fl in r["failures"]:
+            key = fl["clause"] + "|" + core.canon(fl["cell"])
+            m = merged.get(key)
+            if m is None:
+                merged[key] = dict(fl)
+            else:
+                m["count"] += fl["count"]
+                if len(core.canon(fl["case"])) < len(core.canon(m["case"])):
+                    cnt = m["count"]
+                    m.update(fl)
+                    m["count"] = cnt
+    for _r in [0]:
+        for fl in merged.values():
             e = core.match_known(fl, known)
             if e is not None:
                 ks = known_seen.setdefault(e["id"], {"entry": e, "buckets": 0, "cases": 0})
